@@ -15,6 +15,9 @@
  *   bounce  "-" = no control/vpopbounce; else 'b' followed by the file's contents
  *   local   the local part (localpart->len bytes);  tail = the bytes that follow it in memory before the NUL
  *           (the real caller passes a pointer into "local@domain")
+ *        c2 <cdb> <domain> <layout> <bounce> <local> -     the same tree, but the real addrparse() (qsmtpd/addrparse.c,
+ *           addrsyntax.c, lib/dns_helpers.c) is run on the argument of "RCPT TO:<local@domain>" with rcpthosts = the
+ *           lower-cased domain.  result: <rc of addrparse> <hex of the strings handed to net_writen, or -> <conf> <probe>...
  * result: <rc> <conf> <probe>...    rc = return value of user_exists(); conf = which filterconf ends up as the
  *         *user's* configuration after userconf_load_configs() when rc > 0: none | user | domain | outside
  *         ('-' when rc <= 0); probe = d:<hexname> (get_dirfd) or f:<hexname> (openat O_RDONLY) relative to the
@@ -40,6 +43,9 @@ static int h_open(const char *name, int flags, ...);
 #include "lib/cdb.c"
 #include "lib/control.c"
 #include "lib/mmap.c"
+#include "lib/dns_helpers.c"
+#include "qsmtpd/addrsyntax.c"
+#include "qsmtpd/addrparse.c"
 
 /* ---- collaborators of the included files that are outside the property ---- */
 const char **globalconf;
@@ -47,7 +53,20 @@ int err_control(const char *fn) { (void)fn; return 0; }			/* as in Qsmtpd when t
 int err_control2(const char *m, const char *fn) { (void)m; (void)fn; return 0; }
 void log_write(int p, const char *s) { (void)p; (void)s; }
 void log_writen(int p, const char **s) { (void)p; (void)s; }
-int domainvalid(const char * const host) { (void)host; return 0; }
+struct xmitstat xmitstat;
+string liphost;
+void tarpit(void) { }
+static char h_reply[8192]; static size_t h_replylen;
+int net_writen(const char *const *s)
+{
+	for (int i = 0; s[i]; i++) { size_t l = strlen(s[i]); if (h_replylen + l < sizeof(h_reply)) { memcpy(h_reply + h_replylen, s[i], l); h_replylen += l; } }
+	return 0;
+}
+int netnwrite(const char *s, const size_t l)
+{
+	if (h_replylen + l < sizeof(h_reply)) { memcpy(h_reply + h_replylen, s, l); h_replylen += l; }
+	return 0;
+}
 void ultostr(const unsigned long u, char *res) { sprintf(res, "%lu", u); }
 
 /* ---- open() redirection ---- */
@@ -152,7 +171,9 @@ static void run_case(int nf, struct field *f)
 		snprintf(h_base, sizeof(h_base), "%s/t.%ld", exe, (long)getpid());
 	}
 	h_ninj = 0;
-	if (nf != 7 || f[0].len != 1 || f[0].p[0] != 0xc1) { out_str("BADCASE"); return; }
+	if (nf != 7 || f[0].len != 1 || (f[0].p[0] != 0xc1 && f[0].p[0] != 0xc2)) { out_str("BADCASE"); return; }
+	const int op = f[0].p[0];
+	if (op == 0xc2 && f[6].len) { out_str("BADCASE"); return; }
 	struct field *cdb = &f[1], *dom = &f[2], *lay = &f[3], *bnc = &f[4], *loc = &f[5], *tail = &f[6];
 	if (memchr(dom->p, 0, dom->len) || memchr(loc->p, 0, loc->len) || memchr(tail->p, 0, tail->len)) { out_str("BADCASE"); return; }
 
@@ -237,7 +258,43 @@ static void run_case(int nf, struct field *f)
 
 	controldir_fd = get_dirfd(AT_FDCWD, "control");
 	if (userbackend_init() != 0) BAD;
-	{
+	if (op == 0xc2) {
+		struct userconf ds;
+		userconf_init(&ds);
+		/* "local@domain>" as it stands in linein after "RCPT TO:<", rcpthosts = the lower-cased domain */
+		char *in = malloc(loc->len + dom->len + 3);
+		memcpy(in, loc->p, loc->len); in[loc->len] = '@'; memcpy(in + loc->len + 1, dom->p, dom->len);
+		in[loc->len + dom->len + 1] = '>'; in[loc->len + dom->len + 2] = 0;
+		char *rh = malloc(dom->len + 2);
+		for (size_t i = 0; i < dom->len; i++) rh[i] = (dom->p[i] >= 'A' && dom->p[i] <= 'Z') ? dom->p[i] + 32 : dom->p[i];
+		rh[dom->len] = '\n'; rh[dom->len + 1] = 0;
+		string addr; char *more = NULL;
+		STREMPTY(addr);
+		h_replylen = 0;
+		out_str("");
+		size_t mark = h_outlen;
+		h_logging = 1;
+		errno = 0;
+		int r = addrparse(in, 1, &addr, &more, &ds, rh, dom->len + 1);
+		h_logging = 0;
+		char *probes = strdup(h_outbuf ? h_outbuf + mark : "");
+		h_outlen = mark; if (h_outbuf) h_outbuf[h_outlen] = 0;
+		out_int(r); out_str(" "); out_hex(h_reply, h_replylen);
+		if (r == 0 && ds.domaindirfd >= 0) {
+			int e = userconf_load_configs(&ds);
+			const char *u = (ds.userconf && ds.userconf[0]) ? ds.userconf[0] : "";
+			if (e) out_str(" loaderr");
+			else if (!strcmp(u, "marker_outside")) out_str(" outside");
+			else if (!strcmp(u, "marker_domain")) out_str(" domain");
+			else if (!strcmp(u, "marker_user")) out_str(" user");
+			else if (!*u) out_str(" none");
+			else out_str(" other");
+		} else out_str(" -");
+		out_str(probes);
+		free(probes);
+		userconf_free(&ds);
+		free(addr.s); free(in); free(rh);
+	} else {
 		struct userconf ds;
 		userconf_init(&ds);
 		/* exact-size copies: ASan sees any read past the terminator */
